@@ -267,6 +267,7 @@ pub fn replay(path: &str) -> i32 {
         "C18" => return crate::c18::replay(&j),
         "C19" => return crate::c19::replay(&j),
         "C13" => return crate::c13::replay(&j),
+        "C16" => return crate::c16::replay(&j),
         _ => {}
     }
     let test: TestFn = match prop.as_str() {
@@ -282,6 +283,7 @@ pub fn replay(path: &str) -> i32 {
         "C10" => crate::derived::test_c10,
         "C11" => crate::derived::test_c11,
         "C12" => crate::c12::test,
+        "C14" => crate::c14::test,
         "C15" => crate::c15::test,
         _ => {
             eprintln!("no replay handler for property {prop:?}");
